@@ -134,7 +134,12 @@ Allowed(e) ==
          /\ RigidOK(e.M)
          /\ \A i \in 1..3 : Near(e.ipos[i], 0, 24 + tp)
          /\ Near(e.itgt[1], 0, 12 + e.d \div 64 + tp) /\ Near(e.itgt[2], 0, 12 + e.d \div 64 + tp) /\ e.itgt[3] > 0
-         /\ IF e.tsc = 0
+         /\ IF "steep" \in DOMAIN e /\ e.steep = 1
+            THEN \* target almost straight above / below (t = (dx, +-K, dz), |dx|, |dz| <= 1; e.d = K scaled):
+                 \* on the axis to 1e-4 of the distance, at a distance within 2e-3 of K
+                 /\ Near(e.itgt[1], 0, 4 + e.d \div 10000) /\ Near(e.itgt[2], 0, 4 + e.d \div 10000)
+                 /\ Near(e.itgt[3], e.d, 8 + e.d \div 500)
+            ELSE IF e.tsc = 0
             THEN Near((e.itgt[3] \div 64) * (e.itgt[3] \div 64), e.d2 * (SC \div 64) * (SC \div 64), (e.d2 * (SC \div 64) * (SC \div 64)) \div 200 + 64)
             ELSE Near(e.itgt[3], e.d, 12 + e.d \div 64 + tp)
     [] e.op = "fpmove" ->
